@@ -10,7 +10,16 @@ for mod in ("translate_pools", "translate_symtable", "translate_bench", "transla
     if not os.path.exists(os.path.join(os.path.dirname(os.path.abspath(__file__)), mod + ".py")):
         continue
     try:
-        importlib.import_module(mod).emit()
+        m = importlib.import_module(mod)
+        if mod == "translate_symtable":
+            m.gen()
+        elif mod == "translate_bench":
+            import common as C
+            m.emit_coq(m.translate(os.path.join(C.SRC, "thefittest/benchmarks/_optproblems.py"),
+                                   os.path.join(C.SRC, "thefittest/benchmarks/CEC2005.py")),
+                       os.path.join(C.COQ, "gen", "GenBenchFootprint.v"))
+        else:
+            m.emit()
     except Exception:
         traceback.print_exc()
         print(f"genall: translator {mod} failed (fail-closed); the tables it owns are left as they were", file=sys.stderr)
